@@ -1819,7 +1819,7 @@ package crypto
 //@ assigns nothing
 //@ ensures [accepts-exactly-x962-compressed-points] (result1 == nil) == (len(pkBytes) == 33 && (pkBytes[0] == 2 || pkBytes[0] == 3) && be32(pkBytes[1:33]) < curveP(a.curve) && compressedOK(a.curve, pkBytes[0], be32(pkBytes[1:33])))
 //@ ensures [rejects-with-invalid-input] result1 != nil ==> result0 == nil && iserr(result1, *invalidInputsError)
-//@ ensures [key] result1 == nil ==> typeis(result0, *pubKeyECDSA) && fresh(unbox(result0, *pubKeyECDSA)) && pkECDSAOK(unbox(result0, *pubKeyECDSA)) && unbox(result0, *pubKeyECDSA).goPubKey.X.v == be32(pkBytes[1:33])
+//@ ensures [key] result1 == nil ==> typeis(result0, *pubKeyECDSA) && fresh(unbox(result0, *pubKeyECDSA)) && pkECDSAOK(unbox(result0, *pubKeyECDSA)) && unbox(result0, *pubKeyECDSA).goPubKey.X.v == be32(pkBytes[1:33]) && unbox(result0, *pubKeyECDSA).goPubKey.Y.v == decompY(a.curve, pkBytes[0], be32(pkBytes[1:33])) && unbox(result0, *pubKeyECDSA).alg == a
 
 //@ func (*prKeyECDSA).PublicKey mode int recvinv props C12 C09
 //@ requires skECDSAOK(sk) && sk.goPrKey.X != nil && sk.goPrKey.Y != nil && (sk.pubKey != nil ==> pkECDSAOK(sk.pubKey) && sk.pubKey.goPubKey == &sk.goPrKey.PublicKey)
@@ -1989,3 +1989,107 @@ package crypto
 //@ loop 1 invariant [frame] jfShape(s) && unchanged(s.dkgCommon) && unchanged(s.fvss) && unchanged(s.size) && unchanged(s.threshold) && unchanged(s.myIndex) && unchanged(s.processor)
 //@ loop 1 invariant [instances assumed-preserved] forall(j, 0, s.size, jfStartInst(s, j))
 //@ loop 1 invariant [running-once-one-instance-started] i > 0 ==> s.running
+
+// =============================================================================================
+// ECDSA encoders (C05): fixed-width big-endian forms that the raw decoders accept and map back to the same key.
+// (*big.Int).Bytes is the minimal big-endian form (assumed); the copy into the tail of a zeroed buffer is the
+// zero-padded form (be32v padding axiom).
+//@ pred skECDSARange(sk) = skECDSAOK(sk) && curveSizes(sk.alg.curve) && 1 <= sk.goPrKey.D.v && sk.goPrKey.D.v < curveN(sk.alg.curve)
+//@ pred pkECDSARange(pk) = pkECDSAOK(pk) && curveSizes(pk.alg.curve) && 0 <= pk.goPubKey.X.v && pk.goPubKey.X.v < curveP(pk.alg.curve) && 0 <= pk.goPubKey.Y.v && pk.goPubKey.Y.v < curveP(pk.alg.curve)
+
+//@ func (*prKeyECDSA).rawEncode mode int props C05 C09
+//@ requires skECDSARange(sk)
+//@ assigns nothing
+//@ ensures [fixed-width-big-endian-scalar] len(result) == 32 && fresh(result) && be32v(result[0:32]) == sk.goPrKey.D.v
+
+//@ func (*prKeyECDSA).Encode mode int recvinv props C05 C09
+//@ requires skECDSARange(sk)
+//@ assigns nothing
+//@ ensures [fixed-width-big-endian-scalar] len(result) == 32 && fresh(result) && be32v(result[0:32]) == sk.goPrKey.D.v
+
+//@ func (*pubKeyECDSA).rawEncode mode int props C05 C09
+//@ requires pkECDSARange(pk)
+//@ assigns nothing
+//@ ensures [x-then-y-each-padded-to-32-bytes] len(result) == 64 && fresh(result) && (pk.goPubKey.X.v >= 1 ==> be32v(result[0:32]) == pk.goPubKey.X.v) && (pk.goPubKey.X.v == 0 ==> be32v(result[0:32]) == 0) && (pk.goPubKey.Y.v >= 1 ==> be32v(result[32:64]) == pk.goPubKey.Y.v) && (pk.goPubKey.Y.v == 0 ==> be32v(result[32:64]) == 0)
+
+//@ func (*pubKeyECDSA).Encode mode int recvinv props C05 C09
+//@ requires pkECDSARange(pk)
+//@ assigns nothing
+//@ ensures [x-then-y-each-padded-to-32-bytes] len(result) == 64 && fresh(result) && (pk.goPubKey.X.v >= 1 ==> be32v(result[0:32]) == pk.goPubKey.X.v) && (pk.goPubKey.X.v == 0 ==> be32v(result[0:32]) == 0) && (pk.goPubKey.Y.v >= 1 ==> be32v(result[32:64]) == pk.goPubKey.Y.v) && (pk.goPubKey.Y.v == 0 ==> be32v(result[32:64]) == 0)
+
+//@ func (*prKeyECDSA).Equals mode int recvinv props C05 C09
+//@ requires skECDSAOK(sk) && (typeis(other, *prKeyECDSA) ==> skECDSAOK(unbox(other, *prKeyECDSA)))
+//@ assigns nothing
+//@ ensures [equal-iff-same-curve-and-scalar] result == (typeis(other, *prKeyECDSA) && unbox(other, *prKeyECDSA).alg.curve == sk.alg.curve && unbox(other, *prKeyECDSA).goPrKey.D.v == sk.goPrKey.D.v)
+
+//@ func (*pubKeyECDSA).Equals mode int recvinv props C05 C09
+//@ requires pkECDSAOK(pk) && (typeis(other, *pubKeyECDSA) ==> pkECDSAOK(unbox(other, *pubKeyECDSA)))
+//@ assigns nothing
+//@ ensures [equal-iff-same-curve-and-point] result == (typeis(other, *pubKeyECDSA) && unbox(other, *pubKeyECDSA).alg.curve == pk.alg.curve && unbox(other, *pubKeyECDSA).goPubKey.X.v == pk.goPubKey.X.v && unbox(other, *pubKeyECDSA).goPubKey.Y.v == pk.goPubKey.Y.v)
+
+//@ func (*prKeyECDSA).Size mode int recvinv props C05 C09
+//@ requires skECDSAOK(sk) && curveSizes(sk.alg.curve)
+//@ assigns nothing
+//@ ensures result == 32
+
+//@ func (*pubKeyECDSA).Size mode int recvinv props C05 C09
+//@ requires pkECDSAOK(pk) && curveSizes(pk.alg.curve)
+//@ assigns nothing
+//@ ensures result == 64
+
+// round trips (lemma functions in lemmas_verif.go): decoding the encoding of a key object gives an Equal key object
+//@ func verifLemmaECDSAPrivateKeyRoundTrip mode int props C05
+//@ requires skECDSARange(sk) && curveOK(sk.alg.curve)
+//@ assigns nothing
+//@ ensures [decode-of-encode-is-the-same-key] result1 == nil && typeis(result0, *prKeyECDSA) && unbox(result0, *prKeyECDSA).alg == sk.alg && unbox(result0, *prKeyECDSA).goPrKey.D.v == sk.goPrKey.D.v
+
+//@ func verifLemmaECDSAPublicKeyRoundTrip mode int props C05
+//@ requires pkECDSARange(pk) && curveOK(pk.alg.curve) && onCurve(pk.alg.curve, pk.goPubKey.X.v, pk.goPubKey.Y.v)
+//@ assigns nothing
+//@ ensures [decode-of-encode-is-the-same-key] result1 == nil && typeis(result0, *pubKeyECDSA) && unbox(result0, *pubKeyECDSA).alg == pk.alg && unbox(result0, *pubKeyECDSA).goPubKey.X.v == pk.goPubKey.X.v && unbox(result0, *pubKeyECDSA).goPubKey.Y.v == pk.goPubKey.Y.v
+
+//@ func (*pubKeyECDSA).EncodeCompressed mode int recvinv props C05 C09
+//@ requires pkECDSARange(pk) && curveBits(pk.alg.curve) == 256
+//@ assigns nothing
+//@ ensures [x962-compressed-form] len(result) == 33 && fresh(result) && result[0] == 2 + pk.goPubKey.Y.v % 2 && be32(result[1:33]) == pk.goPubKey.X.v
+
+//@ func verifLemmaECDSAPublicKeyCompressedRoundTrip mode int props C05
+//@ requires pkECDSARange(pk) && curveOK(pk.alg.curve) && curveBits(pk.alg.curve) == 256 && onCurve(pk.alg.curve, pk.goPubKey.X.v, pk.goPubKey.Y.v)
+//@ assigns nothing
+//@ ensures [decode-of-encode-is-the-same-key] result1 == nil && typeis(result0, *pubKeyECDSA) && unbox(result0, *pubKeyECDSA).alg == pk.alg && unbox(result0, *pubKeyECDSA).goPubKey.X.v == pk.goPubKey.X.v && unbox(result0, *pubKeyECDSA).goPubKey.Y.v == pk.goPubKey.Y.v
+
+// ---- BLS key objects: equality and the compressed encoding (C05)
+//@ cfunc Fr_is_equal nobody pure
+//@ requires a != nil && b != nil
+//@ assigns nothing
+//@ ensures result == (*a == *b)
+
+//@ func (*scalar).equals mode int props C05 C09
+//@ requires x != nil && other != nil
+//@ assigns nothing
+//@ ensures result == (*x == *other)
+
+//@ func (*pointE2).equals mode int props C05 C09
+//@ requires p != nil && other != nil
+//@ assigns nothing
+//@ ensures result == e2Eq(*p, *other)
+
+//@ func (*prKeyBLSBLS12381).Equals mode int props C05 C09
+//@ requires sk != nil && (typeis(other, *prKeyBLSBLS12381) ==> unbox(other, *prKeyBLSBLS12381) != nil)
+//@ assigns nothing
+//@ ensures [equal-iff-same-scalar] result == (typeis(other, *prKeyBLSBLS12381) && unbox(other, *prKeyBLSBLS12381).scalar == sk.scalar)
+
+//@ func (*pubKeyBLSBLS12381).Equals mode int props C05 C09
+//@ requires pk != nil && (typeis(other, *pubKeyBLSBLS12381) ==> unbox(other, *pubKeyBLSBLS12381) != nil)
+//@ assigns nothing
+//@ ensures [equal-iff-same-point] result == (typeis(other, *pubKeyBLSBLS12381) && e2Eq(pk.point, unbox(other, *pubKeyBLSBLS12381).point))
+
+//@ func (*pubKeyBLSBLS12381).EncodeCompressed mode int props C05 C09
+//@ requires a != nil
+//@ assigns nothing
+//@ ensures len(result) == 96 && fresh(result) && g2encOf(result, a.point)
+
+//@ func verifLemmaBLSPrivateKeyRoundTrip mode int props C05
+//@ requires a != nil && sk != nil && 1 <= sk.scalar && sk.scalar < FrR()
+//@ assigns nothing
+//@ ensures [decode-of-encode-is-the-same-key] result1 == nil && typeis(result0, *prKeyBLSBLS12381) && unbox(result0, *prKeyBLSBLS12381).scalar == sk.scalar
